@@ -65,6 +65,8 @@ type node struct {
 	dir     string
 	stop    []func()
 	csDone  chan struct{}
+	probes  []func() // cheap liveness probes, each must return within its deadline
+	pPeer   *p2pmock.Peer
 }
 
 var nopLogger = log.NewNopLogger()
@@ -217,7 +219,54 @@ func newNode(kind string, mode string) (n *node, err error) {
 	default:
 		return nil, fmt.Errorf("unknown reactor %q", kind)
 	}
+	// a second, well-behaved peer for the liveness probes
+	n.pPeer = p2pmock.NewPeer(net.IPv4(10, 8, 0, 1))
+	n.stop = append(n.stop, func() { n.pPeer.Stop() }) //nolint
+	if ip, ok := n.reactor.(interface{ InitPeer(p2p.Peer) p2p.Peer }); ok && kind != "pex" {
+		ip.InitPeer(n.pPeer)
+	}
+	fromProbePeer := func(ch byte, b []byte) func() {
+		return func() { n.reactor.Receive(ch, n.pPeer, b) }
+	}
+	switch kind {
+	case "consensus":
+		pbid := tmproto.BlockID{Hash: bytesOf(32, 1), PartSetHeader: tmproto.PartSetHeader{Total: 1, Hash: bytesOf(32, 2)}}
+		farVote := &types.Vote{Type: tmproto.PrevoteType, Height: 2000000, Round: 0, Timestamp: time.Unix(1600000006, 0).UTC(),
+			ValidatorAddress: bytesOf(20, 3), ValidatorIndex: 0, Signature: bytesOf(64, 4)}
+		n.probes = []func(){
+			func() { n.cs.GetRoundState() },
+			// takes the consensus state mutex in Receive (claim for the node's own height; always the same block id)
+			fromProbePeer(0x20, consMsg(&tmcons.VoteSetMaj23{Height: 1, Round: 0, Type: tmproto.PrevoteType, BlockID: pbid})),
+			// goes through the peer queue to the receive routine
+			fromProbePeer(0x22, consMsg(&tmcons.Vote{Vote: farVote.ToProto()})),
+			func() { n.cs.GetRoundState() },
+		}
+	case "mempool":
+		n.probes = []func(){fromProbePeer(0x30, mustMarshal(&mpproto.Message{Sum: &mpproto.Message_Txs{Txs: &mpproto.Txs{Txs: [][]byte{[]byte("probe=1")}}}}))}
+	case "evidence":
+		n.probes = []func(){fromProbePeer(0x38, mustMarshal(&tmproto.EvidenceList{}))}
+	case "blockchain":
+		n.probes = []func(){fromProbePeer(0x40, mustMarshal(&bcproto.Message{Sum: &bcproto.Message_StatusRequest{StatusRequest: &bcproto.StatusRequest{}}}))}
+	case "statesync":
+		n.probes = []func(){fromProbePeer(0x60, mustMarshal(&ssproto.Message{Sum: &ssproto.Message_SnapshotsRequest{SnapshotsRequest: &ssproto.SnapshotsRequest{}}}))}
+	}
 	return n, nil
+}
+
+// probe runs the node's liveness probes; "" = alive, else which probe did not return
+func (n *node) probe(full bool) string {
+	for i, f := range n.probes {
+		if !full && i > 0 {
+			break
+		}
+		if !within(5*time.Second, f) {
+			return fmt.Sprintf("probe-%d-does-not-return", i)
+		}
+	}
+	if full && !n.pPeer.IsRunning() {
+		return "well-behaved-peer-stopped"
+	}
+	return ""
 }
 
 // close stops everything; a component that does not stop within 5 s (e.g. a consensus state
@@ -266,11 +315,16 @@ func (n *node) receive(ch byte, b []byte) string {
 	select {
 	case v := <-res:
 		if v == "ok" && !n.peer.IsRunning() {
-			return "stopped"
+			v = "stopped"
 		}
 		if v == "recovered-panic" {
 			// what MConnection._recover → peer.onError → StopPeerForError does
 			n.sw.StopPeerForError(n.peer, "recovered")
+		}
+		// liveness: after EVERY message the node's state is readable; after a message that cost the
+		// peer its connection also a well-formed message of another peer is handled
+		if w := n.probe(v != "ok"); w != "" {
+			return "WEDGED-after-" + v + ":" + w
 		}
 		return v
 	case <-time.After(10 * time.Second):
@@ -581,6 +635,13 @@ func oracleReactor(c core.Case, out []string) []core.Finding {
 			fs = append(fs, core.Finding{Fingerprint: kind + "." + verb + ".harness-panic", Desc: op + " => " + o})
 		case o == "STUCK":
 			fs = append(fs, core.Finding{Fingerprint: kind + ".Receive.stuck-on-" + m["kind"], Desc: "Receive did not return within 10 s: " + trunc(op, 300)})
+		case strings.HasPrefix(o, "WEDGED-after-"):
+			cls := "peer-error"
+			if strings.HasPrefix(o, "WEDGED-after-ok") {
+				cls = "accepted-message"
+			}
+			fs = append(fs, core.Finding{Fingerprint: kind + ".reactor.wedged-after-" + cls,
+				Desc: fmt.Sprintf("%s reactor: after the %s message (%s) the node no longer answers its liveness probe (state readable, well-formed message of another peer handled, each within 5 s): %s", kind, m["kind"], trunc(op, 160), o)})
 		case strings.HasPrefix(o, "WEDGED-flood"):
 			fs = append(fs, core.Finding{Fingerprint: kind + ".reactor.wedged-by-flood",
 				Desc: fmt.Sprintf("%s reactor: %s peers concurrently delivered %s well-formed messages each (mix %s); afterwards %s", kind, m["peers"], m["per"], m["mix"], o)})
@@ -769,7 +830,7 @@ func genConsensusCase(r *rand.Rand) []string {
 	}
 	for i := 0; i < steps; i++ {
 		var v string
-		switch r.Intn(13) {
+		switch r.Intn(15) {
 		case 0, 1: // NewRoundStep (mostly plausible so that the peer state moves)
 			m := &tmcons.NewRoundStep{Height: height, Round: round, Step: uint32(1 + r.Intn(8)), SecondsSinceStartTime: int64(r.Intn(10)), LastCommitRound: -1}
 			if r.Intn(3) == 0 {
@@ -854,7 +915,16 @@ func genConsensusCase(r *rand.Rand) []string {
 			}
 		case 8: // VoteSetMaj23
 			m := &tmcons.VoteSetMaj23{Height: height + int64(r.Intn(2)), Round: hostileInt32(r), Type: tmproto.SignedMsgType(1 + r.Intn(2)), BlockID: blockID(r, r.Intn(4) != 0)}
+			if r.Intn(3) != 0 { // the node's own height, a round that repeats
+				m.Height, m.Round = 1, int32(r.Intn(2))
+			}
 			v = g.msg(0x20, "opaque-votesetmaj23", "", consMsg(m))
+			if v == "ok" && r.Intn(3) != 0 {
+				// the same peer contradicts itself: same height/round/type, another block id
+				m2 := *m
+				m2.BlockID = blockID(r, true)
+				v = g.msg(0x20, "opaque-votesetmaj23-conflicting", "", consMsg(&m2))
+			}
 		case 9: // Proposal (sets the peer's part bit array from Total) then parts
 			bid := blockID(r, true)
 			bid.PartSetHeader.Total = uint32(hostileInt64(r) & 0xffffffff)
@@ -901,6 +971,40 @@ func genConsensusCase(r *rand.Rand) []string {
 			if v == "ok" {
 				g.gossip("vote")
 			}
+		case 13: // has-vote, then vote-set-bits from the same peer denying it (and claiming other votes)
+			idx := int32(r.Intn(4))
+			hv := &tmcons.HasVote{Height: 1, Round: 0, Type: tmproto.PrevoteType, Index: idx}
+			v = g.msg(0x20, "hasvote", fmt.Sprintf("h=%d r=%d t=%d idx=%d ", hv.Height, hv.Round, hv.Type, hv.Index), consMsg(hv))
+			if v == "ok" {
+				vb := &tmcons.VoteSetBits{Height: 1, Round: 0, Type: tmproto.PrevoteType, BlockID: blockID(r, true),
+					Votes: tmbits.BitArray{Bits: 4, Elems: []uint64{uint64(15 &^ (1 << uint(idx)))}}}
+				if r.Intn(2) == 0 {
+					vb.Votes = tmbits.BitArray{Bits: int64(1 + r.Intn(70)), Elems: nil}
+					vb.Votes.Elems = make([]uint64, (vb.Votes.Bits+63)/64)
+				}
+				v = g.msg(0x23, "votesetbits", fmt.Sprintf("h=%d r=%d tok=1 bidok=1 %s", vb.Height, vb.Round, bstr(&vb.Votes)), consMsg(vb))
+				if v == "ok" {
+					g.gossip("vote")
+				}
+			}
+		case 14: // new-round-step regressions: forward, then back, then sideways
+			seq := []*tmcons.NewRoundStep{
+				{Height: 1, Round: int32(1 + r.Intn(3)), Step: uint32(4 + r.Intn(5)), LastCommitRound: -1},
+				{Height: 1, Round: 0, Step: 1, LastCommitRound: -1},
+				{Height: 2, Round: 0, Step: 1, LastCommitRound: int32(r.Intn(3))},
+				{Height: 1, Round: int32(r.Intn(3)), Step: uint32(1 + r.Intn(8)), LastCommitRound: -1},
+				{Height: 2, Round: 0, Step: 1, LastCommitRound: int32(r.Intn(3))},
+			}
+			for _, m := range seq[:2+r.Intn(4)] {
+				v = g.msg(0x20, "newroundstep", fmt.Sprintf("h=%d r=%d s=%d lcr=%d ", m.Height, m.Round, m.Step, m.LastCommitRound), consMsg(m))
+				if v != "ok" {
+					break
+				}
+				if r.Intn(2) == 0 {
+					g.gossip("vote")
+				}
+			}
+			height, round = 1, 0
 		case 12: // garbage bytes on a random consensus channel
 			b := make([]byte, r.Intn(40))
 			r.Read(b)
